@@ -500,6 +500,12 @@ func (x *Exec) loopWrites(st *State, fr *Frame, h int, li *loopInfo) (all bool, 
 							if len(cc.of("modifies", -1)) == 0 {
 								continue
 							}
+							if ks, ok := staticModKeys(f, cc); ok {
+								for k, s := range ks {
+									keys[k] = s
+								}
+								continue
+							}
 							return true
 						}
 						if f.Blocks == nil || depth > 3 {
